@@ -217,14 +217,17 @@ ConsumeOne(e, h0, mid) ==
   ELSE [ok |-> FALSE, h |-> cur6, mid |-> mid, item |-> "none", errs |-> e6 \o (IF b6c THEN <<r6.h>> ELSE <<>>) \o <<cur6>>]
 
 \* build_mid_result: [ok, h, mid, steps, errs]
+\* a step = one successful consume_one: the item, the cursor before and after, the error cursors of the branches
+\* that failed before the successful one, and the slots afterwards; `fail` = the consume_one that ended the build
+NoFail == [some |-> FALSE]
 RECURSIVE Build(_, _, _, _, _)
 Build(e, h, mid, steps, errs) ==
-  IF ~Can(e, h) THEN [ok |-> TRUE, h |-> h, mid |-> mid, steps |-> steps, errs |-> errs]
+  IF ~Can(e, h) THEN [ok |-> TRUE, h |-> h, mid |-> mid, steps |-> steps, errs |-> errs, fail |-> NoFail]
   ELSE LET h1 == SkipSp(e, h) IN
-       IF ~Can(e, h1) THEN [ok |-> TRUE, h |-> h1, mid |-> mid, steps |-> steps, errs |-> errs]
+       IF ~Can(e, h1) THEN [ok |-> TRUE, h |-> h1, mid |-> mid, steps |-> steps, errs |-> errs, fail |-> NoFail]
        ELSE LET r == ConsumeOne(e, h1, mid) IN
-            IF r.ok THEN Build(e, r.h, r.mid, Append(steps, [item |-> r.item, from |-> h1, to |-> r.h]), errs \o r.errs)
-            ELSE [ok |-> FALSE, h |-> r.h, mid |-> r.mid, steps |-> steps, errs |-> errs \o r.errs]
+            IF r.ok THEN Build(e, r.h, r.mid, Append(steps, [item |-> r.item, from |-> h1, to |-> r.h, errs |-> r.errs, mid |-> r.mid]), errs \o r.errs)
+            ELSE [ok |-> FALSE, h |-> r.h, mid |-> r.mid, steps |-> steps, errs |-> errs \o r.errs, fail |-> [some |-> TRUE, from |-> h1, errs |-> r.errs]]
 
 SentenceOf(m) == [t |-> m.term.v, p |-> m.punct.v,
                   st |-> IF m.stamp.some THEN m.stamp.v ELSE [k |-> "Eternal"],
@@ -236,14 +239,29 @@ OkRes(n) == [r |-> "ok", v |-> n]
 \* (transform_mid_result takes only what it uses), the error cursors and the steps taken
 Run(e, mid0) ==
   LET b == Build(e, 0, mid0, <<>>, <<>>) IN
-  IF ~b.ok THEN [res |-> ErrRes, mid |-> b.mid, errs |-> b.errs, steps |-> b.steps, h |-> b.h]
+  IF ~b.ok THEN [res |-> ErrRes, mid |-> b.mid, errs |-> b.errs, steps |-> b.steps, h |-> b.h, fail |-> b.fail, built |-> FALSE, start |-> mid0]
   ELSE LET m == b.mid IN
-       IF ~m.term.some THEN [res |-> ErrRes, mid |-> m, errs |-> Append(b.errs, b.h), steps |-> b.steps, h |-> b.h]
+       IF ~m.term.some THEN [res |-> ErrRes, mid |-> m, errs |-> Append(b.errs, b.h), steps |-> b.steps, h |-> b.h, fail |-> NoFail, built |-> TRUE, start |-> mid0]
        ELSE IF m.budget.some /\ m.punct.some
-            THEN [res |-> OkRes([kind |-> "task", v |-> [b |-> m.budget.v, s |-> SentenceOf(m)]]), mid |-> EmptyMid, errs |-> b.errs, steps |-> b.steps, h |-> b.h]
+            THEN [res |-> OkRes([kind |-> "task", v |-> [b |-> m.budget.v, s |-> SentenceOf(m)]]), mid |-> EmptyMid, errs |-> b.errs, steps |-> b.steps, h |-> b.h, fail |-> NoFail, built |-> TRUE, start |-> mid0]
        ELSE IF m.punct.some
-            THEN [res |-> OkRes([kind |-> "sentence", v |-> SentenceOf(m)]), mid |-> [EmptyMid EXCEPT !.budget = m.budget], errs |-> b.errs, steps |-> b.steps, h |-> b.h]
-       ELSE [res |-> OkRes([kind |-> "term", v |-> m.term.v]), mid |-> [m EXCEPT !.term = NoneV], errs |-> b.errs, steps |-> b.steps, h |-> b.h]
+            THEN [res |-> OkRes([kind |-> "sentence", v |-> SentenceOf(m)]), mid |-> [EmptyMid EXCEPT !.budget = m.budget], errs |-> b.errs, steps |-> b.steps, h |-> b.h, fail |-> NoFail, built |-> TRUE, start |-> mid0]
+       ELSE [res |-> OkRes([kind |-> "term", v |-> m.term.v]), mid |-> [m EXCEPT !.term = NoneV], errs |-> b.errs, steps |-> b.steps, h |-> b.h, fail |-> NoFail, built |-> TRUE, start |-> mid0]
+
+\* ---------------------------------------------------------------- the event trace of one run (hooks, DESIGN 6.3)
+\* what the instrumented ParseState emits for one input: build, then per consume_one an item_begin, the errors
+\* of its failed branches and (on success) an item_end with the slots; then assemble, and an error if no term
+SlotStr(m) == (IF m.budget.some THEN "1" ELSE "0") \o (IF m.term.some THEN "1" ELSE "0") \o (IF m.punct.some THEN "1" ELSE "0")
+              \o (IF m.stamp.some THEN "1" ELSE "0") \o (IF m.truth.some THEN "1" ELSE "0")
+ErrEvents(len, cursors) == [i \in 1..Len(cursors) |-> [ev |-> "error", index |-> cursors[i], len |-> len]]
+StepEvents(len, st) == <<[ev |-> "item_begin", head |-> st.from]>> \o ErrEvents(len, st.errs) \o <<[ev |-> "item_end", head |-> st.to, slots |-> SlotStr(st.mid)]>>
+EventsOf(e, run) ==
+  <<[ev |-> "build", len |-> Len(e), head |-> 0, slots |-> SlotStr(run.start)]>>
+  \o Cat([i \in 1..Len(run.steps) |-> StepEvents(Len(e), run.steps[i])])
+  \o (IF run.fail.some THEN <<[ev |-> "item_begin", head |-> run.fail.from]>> \o ErrEvents(Len(e), run.fail.errs) ELSE <<>>)
+  \o (IF run.built THEN <<[ev |-> "assemble", head |-> run.h, slots |-> SlotStr(IF run.steps = <<>> THEN run.start ELSE run.steps[Len(run.steps)].mid)]>>
+                         \o (IF run.res.r = "err" THEN ErrEvents(Len(e), <<run.h>>) ELSE <<>>)
+       ELSE <<>>)
 
 \* parse / parse_chars / every element of parse_multi (reset_to clears the slots on the repaired tree)
 Parse(e) == Run(e, EmptyMid).res
